@@ -52,7 +52,7 @@ func c15_derTLV(tag byte, content []byte) []byte {
 	return append(out, content...)
 }
 
-func derOID(arcs []int) []byte {
+func c15_derOID(arcs []int) []byte {
 	b, err := asn1.Marshal(asn1.ObjectIdentifier(arcs))
 	if err != nil {
 		panic(err)
@@ -70,7 +70,7 @@ func dnDER(rdns [][]c15ATV) []byte {
 	for _, r := range rdns {
 		var set []byte
 		for _, a := range r {
-			set = append(set, c15_derTLV(0x30, append(derOID(a.oid), a.val...))...)
+			set = append(set, c15_derTLV(0x30, append(c15_derOID(a.oid), a.val...))...)
 		}
 		seq = append(seq, c15_derTLV(0x31, set)...)
 	}
@@ -145,7 +145,7 @@ type hATV struct {
 }
 type hRDNSET []hATV
 
-func arcsSx(o []int) Sx {
+func c15_arcsSx(o []int) Sx {
 	l := SL{}
 	for _, a := range o {
 		l = append(l, I(a))
@@ -179,9 +179,9 @@ func nameView(dn []byte) Sx {
 				if rest, err := asn1.Unmarshal(a.Value.FullBytes, &s); err != nil || len(rest) > 0 {
 					return SL{I(1)}
 				}
-				rl = append(rl, SL{arcsSx(a.Type), I(0), S(s)})
+				rl = append(rl, SL{c15_arcsSx(a.Type), I(0), S(s)})
 			} else {
-				rl = append(rl, SL{arcsSx(a.Type), I(1), SB(a.Value.FullBytes)})
+				rl = append(rl, SL{c15_arcsSx(a.Type), I(1), SB(a.Value.FullBytes)})
 			}
 		}
 		out = append(out, rl)
@@ -215,7 +215,7 @@ func rdnsSx(rdns pkix.RDNSequence) Sx {
 	for _, r := range rdns {
 		rl := SL{}
 		for _, a := range r {
-			rl = append(rl, SL{arcsSx(a.Type), goValueSx(a.Value)})
+			rl = append(rl, SL{c15_arcsSx(a.Type), goValueSx(a.Value)})
 		}
 		out = append(out, rl)
 	}
@@ -363,7 +363,7 @@ func c15NonString(r *Rng) []byte {
 	case 4:
 		return []byte{1, 1, 0xff}
 	case 5:
-		return derOID([]int{1, 2, 840, r.Intn(100000)})
+		return c15_derOID([]int{1, 2, 840, r.Intn(100000)})
 	case 6:
 		return c15_derTLV(0x30, []byte{2, 1, 5})
 	case 7:
@@ -502,7 +502,7 @@ func (g *c15Gen) emitEscape(tag string, s string) {
 	g.c.Emit("escape:"+tag, SL{S(s)}, S(names.VerifEscapeRDNAttrValue(s)))
 }
 
-func mutate(r *Rng, d []byte) []byte {
+func c15_mutate(r *Rng, d []byte) []byte {
 	d = append([]byte{}, d...)
 	if len(d) == 0 {
 		return d
@@ -642,7 +642,7 @@ func genC15(c *Ctx) {
 	for i := 0; i < 500*scale; i++ {
 		d := dnDER(g.randName(r.Intn(4) == 0, specials))
 		for k := 1 + r.Intn(3); k > 0; k-- {
-			d = mutate(r, d)
+			d = c15_mutate(r, d)
 		}
 		g.emitRaw("malformed", d)
 	}
